@@ -338,3 +338,58 @@ def run(ctx):
             else:
                 ctx.count("confirmed_by_independent_solve")
     ctx.extra["certificates"] = certs[:20]
+
+
+# ---- kept soft constraints / single pass, and vector goals ----------------------------------------------------
+def retained_objective_cases(ctx):
+    """keep_soft_constraints / single pass: what is retained from an earlier priority is its documented
+    objective (probability-weighted over members, summed over time) <= the optimum found; checked on every
+    later solution of generated trade-off cases (unequal probabilities, negative optima)"""
+    for _ in range(ctx.n(10, 250)):
+        c = c02.gen_tradeoff_run(ctx.rng)
+        out = c02.run_case(c)
+        ctx.count("retained_objective_cases")
+        ctx.case_done(core.fingerprint(["retained-objective", c["variant"], c["E"], bool(c.get("probabilities")),
+                                        [[g["fn"], g["path"], g.get("tmin"), g.get("tmax")] for g in c["goals"]]]), True)
+        if "error" in out or not out.get("ok"):
+            ctx.count("retained_objective_unsolved")
+            continue
+        ctx.runtime_samples += 1
+        bad = [b for b in c02.attainment_check(c, out) if b.get("priority_objective")]
+        if bad:
+            ctx.violation("retained/priority-objective", {"case": c, "finding": bad[0]},
+                          what="the objective of priority %s (%.6g at its optimum) is %.6g in the solution of priority %s: the retained constraint is not the documented one" % (
+                              bad[0]["solved_at"], bad[0]["objective_then"], bad[0]["objective_later"], bad[0]["later"]))
+
+
+def vector_goal_cases(ctx):
+    """a vector goal stands for its scalar goals: same optimal values per priority, with and without
+    scale_by_problem_size"""
+    from . import c17
+    for _ in range(ctx.n(3, 80)):
+        desc, make = c17.vector_pair(ctx.rng)
+        outs = []
+        for flag in (True, False):
+            P, rec = make(flag)
+            k, val = c17.in_child(lambda: c17._run_gp(P, rec), timeout=120)
+            outs.append(val if k == "ok" else None)
+        ctx.count("vector_goal_pairs")
+        ctx.case_done(core.fingerprint(["vector-goal", desc["n"], desc["E"], desc["order"], desc["scale_by_problem_size"]]), True)
+        a, b = outs
+        if not a or not b or not (a["ok"] and b["ok"]):
+            ctx.count("vector_goal_pair_unsolved")
+            continue
+        if not c17.close_lists(a["objectives"], b["objectives"], 1e-5):
+            ctx.violation("formulation/vector-goal", {"case": desc, "vector": a, "scalars": b},
+                          what="a vector goal and its scalar goals are different optimisation problems: optimal values %s vs %s (scale_by_problem_size=%s)" % (
+                              a["objectives"], b["objectives"], desc["scale_by_problem_size"]))
+
+
+_run_core = run
+
+
+def run(ctx):  # noqa: F811
+    _run_core(ctx)
+    if not os.environ.get("VERIF_REPLAY"):
+        retained_objective_cases(ctx)
+        vector_goal_cases(ctx)
